@@ -16,7 +16,8 @@ from .. import env, spec
 
 PROPERTY = "C13"
 LEVEL = "exploration"
-RULE = ("every (module type, controller|option|class field) comparison between the live class "
+RULE = ("the comparison runs twice: at the quiescent point after import and again after a hostile workload (about a thousand loads of files with unknown module types, out-of-enumeration unit/enum values and garbage option records, plus API use under every unit); "
+        "every (module type, controller|option|class field) comparison between the live class "
         "objects and the independent spec reader is one case; all are distinct by construction; "
         "non-trivial = the spec declares a value for that field")
 EXHAUSTIVE_AXIS = "all module types x all controllers x all options x all compared fields"
@@ -24,7 +25,7 @@ ASSUMPTIONS = [
     "rvmon.spec reads specs/fileformat.yaml correctly (it shares no code with rv/genrv)",
     "hand-written extra controllers are tolerated only after all spec controllers and only if unattached on a fresh instance",
 ]
-REQUIRED_COUNTERS = ["controllers_compared", "options_compared", "types_compared"]
+REQUIRED_COUNTERS = ["controllers_compared", "options_compared", "types_compared", "hostile_loads"]
 
 
 def plan(tier, seed):
@@ -231,8 +232,78 @@ def regen_diff(res):
         shutil.rmtree(base, ignore_errors=True)
 
 
+def hostile_workload(res, tier):
+    """Loads of files 'from a newer / broken SunVox' (unknown module types, unit and enum CVALs outside their
+    enumerations, garbage option records) plus ordinary API use.  The class-level metadata is shared by every
+    instance, so nothing here may alter it: compare_all runs again afterwards."""
+    import random
+    import struct
+    from io import BytesIO
+    import rv.api as api
+    from rv.modules import MODULE_CLASSES
+    from .. import iffparse
+    rng = random.Random(env.shard_seed(13))
+    sources = []
+    for f in env.fixtures():
+        with open(f, "rb") as fh:
+            sources.append(fh.read())
+    sp = spec.load()
+    for T, t in sorted(sp.items()):
+        if T == "Output":
+            continue
+        cls = MODULE_CLASSES[t.mtype]
+        m = cls()
+        sources.append(api.Synth(m).read())
+        # ordinary API use under every unit / enum member
+        for c in t.controllers:
+            if c.kind == "enum":
+                for n, v in c.members:
+                    setattr(m, c.name, v)
+            elif c.kind == "dependent":
+                for unit in c.ranges:
+                    setattr(m, c.depends_on, getattr(cls, c.enum)[unit])
+                    setattr(m, c.name, c.ranges[unit][1])
+                    m.get_raw(c.name)
+                    cls.controllers[c.name].pattern_value(m, c.ranges[unit][1])
+    n = 0
+    per = 6 if tier == "quick" else 40
+    for raw in sources:
+        chunks = [(c[0], c[1]) for c in iffparse.parse(raw)]
+        for k in range(per):
+            out = [list(c) for c in chunks]
+            kind = rng.choice(("cval-enum", "cval-enum", "styp", "chdt", "cval-big"))
+            idx_cval = [i for i, c in enumerate(out) if c[0] == b"CVAL"]
+            if kind in ("cval-enum", "cval-big") and idx_cval:
+                for i in rng.sample(idx_cval, min(len(idx_cval), rng.randint(1, 4))):
+                    out[i][1] = struct.pack("<i", rng.choice([7, 8, 9, 10, 11, 17, 99, 255]) if kind == "cval-enum" else rng.choice([-5, 70000, 2 ** 31 - 1]))
+            elif kind == "styp":
+                idx = [i for i, c in enumerate(out) if c[0] == b"STYP"]
+                if idx:
+                    out[rng.choice(idx)][1] = rng.choice([b"Resampler\0", b"Amplifier2\0", b"New module\0", b"\0"])
+            else:
+                idx = [i for i, c in enumerate(out) if c[0] == b"CHDT" and 0 < len(c[1]) <= 64]
+                if idx:
+                    i = rng.choice(idx)
+                    out[i][1] = bytes(rng.randrange(256) for _ in range(len(out[i][1])))
+            try:
+                api.read_sunvox_file(BytesIO(iffparse.build(out)))
+                res.count("hostile_loads_completed")
+            except Exception:
+                res.count("hostile_loads_raised")
+            n += 1
+    res.count("hostile_loads", n)
+
+
 def run_shard(spec_, res):
     compare_all(res)
+    before = res.evaluations
+    hostile_workload(res, spec_["tier"])
+    n_viol = len(res.violations)
+    compare_all(res)  # the registry and the class-level tables after the hostile workload
+    for v in res.violations[n_viol:]:
+        v["key"] = v["key"].replace("C13:", "C13:after-hostile-loads:", 1)
+        v["what"] = "after loading files with unknown module types / out-of-enumeration values: " + v["what"]
+    res.count("registry_comparisons", 2)
     res.sample({"example": "Amplifier.balance", "compared": ["number", "position", "kind", "min", "max", "default", "attached"]})
     res.sample({"example": "MetaModule.user_defined_controllers", "compared": ["byte", "bit", "size", "number", "min", "max", "inverted", "exclusive_of", "default"]})
     if spec_["tier"] == "thorough":
